@@ -109,7 +109,9 @@ def apply_jsonpath(input, path="$", throw_exception_on_failed_match=True):
     is matched. The code below attempts to handle that array slice edge case.
     """
     if len(result) == 1:
-        path_has_slice = re.search(r"\[.*:.*\]", path)
+        # A ':' inside a quoted member name, e.g. $['a:b'], is not a slice.
+        unquoted = re.sub(r"'[^']*'|\"[^\"]*\"", "", path)
+        path_has_slice = re.search(r"\[.*:.*\]", unquoted)
         if not path_has_slice:
             return result[0]
 
